@@ -136,6 +136,7 @@ def run(tier):
     chk = vlib.Check("C01", tier)
     quick = tier == "quick"
     chk.add_model([dict(module="MC_QREnc.tla", cfg="MC_QREnc_quick.cfg" if quick else "MC_QREnc_thorough.cfg", workers=6, timeout=3000, heap="6g"),
+                   dict(module="MC_QREnc.tla", cfg="MC_QREnc_nofix.cfg", workers=2, timeout=1000, expect_violation="RoundTrip"),
                    dict(module="MC_QRWalk.tla", cfg="MC_QRWalk_quick.cfg" if quick else "MC_QRWalk.cfg", workers=6, timeout=3000, heap="6g"),
                    dict(module="MC_QRFormat.tla", cfg="MC_QRFormat.cfg", workers=6, timeout=3000, heap="6g")])
     drive = vlib.build_harness(chk.work)
